@@ -53,6 +53,7 @@ func checkC19(c *Ctx) {
 	c.Rule("C19.3", "fragmentation-proof decoding: only one-byte reads with checked count; an error delivered together with the byte does not lose the byte; one record per call (return at the first terminator)", 3)
 	c.Rule("C19.4", "no reachable panic on malformed lines in ReadAndConvert", 1)
 	c.Rule("C19.6", "no artificial limit: the decoder does not give up on a line because an accumulated length reaches a constant below what a 2000-byte message needs (4000 hex digits)", 1)
+	c.Rule("C19.7", "one line per call, whatever the line holds: ReadAndConvert is interpreted on a source holding a line of each shape (well-formed, odd number of hex digits, non-hex data, no separator, empty data, non-numeric time stamp, empty line, blank inside the data) followed by a second record; no outcome — with or without error — consumes a byte beyond the first terminator (the next record is never lost or merged), and every outcome that returns without error has consumed exactly the line", 8)
 	c.Rule("C19.5", "the decoder's conversions invert the encoder's verbs: the decimal text of every int32 time stamp converts back to it and the upper-case hex text of every message converts back to its bytes, with a nil error, on every path", 2)
 
 	read := p.Func("drivers/midicat", "Read")
@@ -209,6 +210,96 @@ func checkC19(c *Ctx) {
 	if nread == 0 {
 		c.Bad("C19.3", "read sites", "-", "decoder performs no read")
 	}
+	// who consumes the source: the source value (the decoder's io.Reader parameter, whatever it is asserted or converted
+	// to, handed on to helpers) may only be consumed through the one-byte io.Reader.Read sites judged above. Any other
+	// consumer (a buffered reader's ReadSlice/ReadLine/ReadString, io.ReadFull, io.Copy ...) brings its own buffer
+	// limits and read-ahead: records then depend on line length or on what else is in the stream.
+	{
+		tainted := map[ssa.Value]bool{}
+		for _, prm := range rac.Params {
+			if prm.Type().String() == "io.Reader" {
+				tainted[prm] = true
+			}
+		}
+		inScope := map[*ssa.Function]bool{}
+		for _, f := range scope {
+			inScope[f] = true
+		}
+		for changed := true; changed; {
+			changed = false
+			mark := func(v ssa.Value) {
+				if !tainted[v] {
+					tainted[v] = true
+					changed = true
+				}
+			}
+			for _, fn := range scope {
+				for _, b := range fn.Blocks {
+					for _, in := range b.Instrs {
+						switch x := in.(type) {
+						case *ssa.TypeAssert:
+							if tainted[x.X] {
+								mark(x)
+							}
+						case *ssa.Extract:
+							if tainted[x.Tuple] {
+								if _, isTA := x.Tuple.(*ssa.TypeAssert); isTA && x.Index == 0 {
+									mark(x)
+								}
+							}
+						case *ssa.ChangeInterface:
+							if tainted[x.X] {
+								mark(x)
+							}
+						case *ssa.MakeInterface:
+							if tainted[x.X] {
+								mark(x)
+							}
+						case *ssa.Phi:
+							for _, e := range x.Edges {
+								if tainted[e] {
+									mark(x)
+								}
+							}
+						case ssa.CallInstruction:
+							cal := x.Common().StaticCallee()
+							if cal != nil && inScope[cal] && InModule(cal) {
+								args := x.Common().Args
+								for i, a := range args {
+									if tainted[a] && i < len(cal.Params) {
+										mark(cal.Params[i])
+									}
+								}
+							}
+						}
+					}
+				}
+			}
+		}
+		for _, fn := range scope {
+			if !InModule(fn) {
+				continue
+			}
+			for _, call := range calls(fn) {
+				cc := call.Common()
+				if invokeIs(call, "Read") && cc.Value.Type().String() == "io.Reader" {
+					continue
+				}
+				if cal := cc.StaticCallee(); cal != nil && InModule(cal) {
+					continue
+				}
+				uses := cc.IsInvoke() && tainted[cc.Value]
+				for _, a := range cc.Args {
+					if tainted[a] {
+						uses = true
+					}
+				}
+				if uses {
+					c.Bad("C19.3", "source consumed other than by the one-byte read in "+FuncName(fn), p.Pos(call.Pos()), "the source is handed to "+callName(call)+": only one-byte io.Reader.Read calls with a checked count keep a record independent of buffer sizes, line length and fragmentation")
+				}
+			}
+		}
+	}
 	// one record per call: after the terminator branch no read is reachable -> terminator edge returns (found above)
 	c.Check(term >= 0 && termReturns, "C19.3", "return at the first terminator", p.Pos(read.Pos()), "once a source byte equals the terminator no further read is reachable in that function", "after the terminator has been seen the decoder can read on: it may consume bytes of the next record")
 	// ---- C19.4
@@ -218,6 +309,12 @@ func checkC19(c *Ctx) {
 	conversionsInvert(c, "C19.5", scope, hexLower)
 	// ---- C19.6 no length limit inside the stated message sizes
 	noSmallLimit(c, "C19.6", scope)
+	// ---- C19.7 one line per call
+	if term >= 0 && sep >= 0 {
+		lineConsumption(c, "C19.7", rac, byte(sep), byte(term))
+	} else {
+		c.Unk("C19.7", "line consumption", "-", "separator / terminator of the line format not resolved (see C19.1)")
+	}
 }
 
 // conversionsInvert: the two conversion helpers of the decoder — []byte -> (int32, error) for the text before the
@@ -638,4 +735,96 @@ func encoderLine(c *Ctx, send *ssa.Function, outT types.Type) (*encLine, string)
 		return nil, "no outcome of Send on an open port reports success"
 	}
 	return res, ""
+}
+
+// lineConsumption (C19.7): see the rule text. Characters of the first line are symbolic within a class ('0'..'9',
+// 'A'..'F', 'G'..'Z'), so every comparison with the separator and the terminator is decided and the byte-wise reader is
+// followed exactly; what the conversions make of the fields does not matter here (both results are explored).
+func lineConsumption(c *Ctx, rule string, rac *ssa.Function, sep, term byte) {
+	p := c.P
+	type cell struct{ name, shape string }
+	// d: digit, h: hex letter, g: other letter, s: separator
+	cells := []cell{
+		{"well-formed", "ddshhhh"}, {"odd number of hex digits", "ddshhh"}, {"non-hex data", "ddsgg"}, {"no separator", "ddhhhh"},
+		{"empty data", "dds"}, {"non-numeric time stamp", "ggshhhh"}, {"empty line", ""}, {"blank inside the data", "ddshhshh"},
+	}
+	for _, cl := range cells {
+		ex := NewExec(p)
+		ex.Unroll = 16
+		st := ex.NewState()
+		var elems []Val
+		for i, ch := range cl.shape {
+			if ch == 's' {
+				elems = append(elems, mkConst(int64(sep), 8, false))
+				continue
+			}
+			sy := ex.syms.Get(fmt.Sprintf("c%d", i), 8, false)
+			switch ch {
+			case 'd':
+				st.refineSym(sy, '0', '9')
+			case 'h':
+				st.refineSym(sy, 'A', 'F')
+			default:
+				st.refineSym(sy, 'G', 'Z')
+			}
+			elems = append(elems, mkSym(sy))
+		}
+		first := int64(len(elems) + 1)
+		elems = append(elems, mkConst(int64(term), 8, false))
+		for _, ch := range []byte("7") {
+			elems = append(elems, mkConst(int64(ch), 8, false))
+		}
+		elems = append(elems, mkConst(int64(sep), 8, false))
+		for _, ch := range []byte("903C40") {
+			elems = append(elems, mkConst(int64(ch), 8, false))
+		}
+		elems = append(elems, mkConst(int64(term), 8, false))
+		src := ex.mkBytes(st, "src", elems, false, 0)
+		rd := ex.readerOver(st, src)
+		outs := ex.Call(st, rac, []Val{rd}, nil)
+		key := "line consumption: " + cl.name
+		if ex.Budget || len(outs) == 0 {
+			c.Unk(rule, key, p.Pos(rac.Pos()), "abstract interpretation did not complete")
+			continue
+		}
+		bad := false
+		for u := range ex.Unsupported {
+			c.Unk(rule, key+": "+u, p.Pos(rac.Pos()), "unmodelled construct")
+			bad = true
+			break
+		}
+		if bad {
+			continue
+		}
+		ok, why := true, ""
+		for _, o := range outs {
+			if o.Panic {
+				ok, why = false, "may panic: "+o.Msg
+				continue
+			}
+			found := false
+			for _, v := range o.St.heap {
+				rv, isR := v.(*RdrV)
+				if !isR || rv.Src.Obj != src.Obj {
+					continue
+				}
+				found = true
+				pos64 := o.St.Convert(rv.Pos, 64, true)
+				lo, hi := o.St.Range(pos64)
+				var ev *IfaceV
+				if len(o.Ret) > 0 {
+					ev, _ = o.Ret[len(o.Ret)-1].(*IfaceV)
+				}
+				if hi > first {
+					ok, why = false, fmt.Sprintf("the call returns (error: %s) with up to %d bytes of the source consumed; the first line ends after %d: bytes of the NEXT record have been consumed (a record is lost or merged)", valString(o.Ret[len(o.Ret)-1]), hi, first)
+				} else if ev != nil && ev.Nil && lo < first {
+					ok, why = false, fmt.Sprintf("the call returns a record without error after consuming only %d of the %d bytes of the line: the next call continues inside this line", lo, first)
+				}
+			}
+			if !found {
+				ok, why = false, "source reader not tracked"
+			}
+		}
+		c.Check(ok, rule, key, p.Pos(rac.Pos()), fmt.Sprintf("%d outcome(s): nothing beyond the first line (%d bytes) consumed; the successful ones consumed exactly the line", len(outs), first), why)
+	}
 }
